@@ -228,17 +228,20 @@ Section Sized.
       destruct (Inv_get _ _ HI Ht) as [(Wa & _) _].
       rewrite bin_eq in H. inv_bind H. destruct x as [[osh ofl] [no ns]]. cbn [fst snd] in H.
       eapply finish_Sz; [exact H|exact HS|exact HI|exact Ht|].
-      unfold bin_prep in Hx. cbn zeta in Hx. inv_bind Hx. destruct (existsb _ x); [discriminate|].
-      inv_bind Hx. injection Hx as <- <- _.
-      pose proof (bin_data_sized _ _ (dict_of (combine (axes_list (ndim (get_arr s (d_arr (get_ds s t)))) ax) x))
-                                 (Sz_get s _ HS Wa)) as Hb.
+      unfold bin_prep in Hx. cbn zeta in Hx.
+      apply bind_ok in Hx. destruct Hx as (nax & _ & Hx).
+      apply bind_ok in Hx. destruct Hx as (facs & _ & Hx). destruct (existsb _ facs); [discriminate|].
+      apply bind_ok in Hx. destruct Hx as (os & _ & Hx). injection Hx as <- <- _.
+      pose proof (bin_data_sized _ _ (dict_of (combine nax facs)) (Sz_get s _ HS Wa)) as Hb.
       destruct mean; [rewrite map_length|]; exact Hb.
     - (* fourier_resample *)
       pose proof (live_target s _ t HL eq_refl) as Ht.
       rewrite fourier_eq in H. inv_bind H. destruct x as [[osh ofl] [no ns]]. cbn [fst snd] in H.
       eapply finish_Sz; [exact H|exact HS|exact HI|exact Ht|].
-      unfold fourier_prep in Hx. cbn zeta in Hx. inv_bind Hx. destruct (existsb _ x); [discriminate|].
-      destruct (existsb _ (axes_list _ ax)); [discriminate|]. injection Hx as <- <- _.
+      unfold fourier_prep in Hx. cbn zeta in Hx.
+      apply bind_ok in Hx. destruct Hx as (nax & _ & Hx).
+      apply bind_ok in Hx. destruct Hx as (outs & _ & Hx). destruct (existsb _ outs); [discriminate|].
+      destruct (existsb _ nax); [discriminate|]. injection Hx as <- <- _.
       apply FR_sized.
     - (* getitem *)
       pose proof (live_target s _ t HL eq_refl) as Ht.
@@ -258,6 +261,7 @@ Section Sized.
       unfold reduce_dp in H. cbn zeta in H.
       destruct (d_cls (get_ds s t)); try discriminate.
       destruct (a_shape (get_arr s (d_arr (get_ds s t)))) as [|n0 [|n1 [|n2 [|n3 [|n4 rest]]]]]; try discriminate.
+      match type of H with (if ?c then _ else _) = _ => destruct c; [discriminate|] end.
       inv_bind H. rename x into data.
       assert (Hlen : length data = prodn [n2; n3]) by (rewrite (mapM_length _ _ _ _ _ Hx); apply coords_length).
       pose proof (alloc_fresh_len s [n2; n3] data) as (A & B & _).
@@ -293,7 +297,7 @@ Section Sized.
     t < length (dss s) ->
     length (o_flat (observe s t)) = prodn (o_shape (observe s t)).
   Proof.
-    intros Hw s Ht. destruct (run_Sz ops Hw empty_state (Inv_empty FR divf) (Forall_nil _)) as [HS HI].
+    intros Hw s Ht. destruct (run_Sz ops Hw empty_state Inv_empty (Forall_nil _)) as [HS HI].
     fold s in HS, HI. destruct (Inv_get _ _ HI Ht) as [(Wa & _) _].
     apply (Sz_get s _ HS Wa).
   Qed.
